@@ -543,6 +543,7 @@ class Engine:
         store. These are interchangeable.
         """
         if not store:
+            composite_state = None
             if (processes and topology) or (steps and topology):
                 self.processes = processes or {}
                 self.steps = steps or {}
@@ -554,12 +555,11 @@ class Engine:
                 self.flow = composite['flow']
                 self.topology = composite['topology']
                 # the composite's own state, completed and overridden by
-                # the initial state given to the engine (as
-                # Composite.initial_state() merges them); the composite
-                # itself is left as it is
-                self.initial_state = deep_merge(
-                    copy.deepcopy(composite['state'] or {}),
-                    self.initial_state)
+                # the initial state given to the engine (applied below,
+                # through the store, which knows a variable that holds a
+                # dictionary from a branch); the composite itself is
+                # left as it is
+                composite_state = copy.deepcopy(composite['state'] or {})
             else:
                 raise ValueError(
                     'load either composite, store, or '
@@ -593,10 +593,15 @@ class Engine:
             self.state: Store = generate_state(
                 self.processes,
                 self.topology,
-                self.initial_state,
+                (self.initial_state if composite_state is None
+                 else composite_state),
                 self.steps,
                 self.flow,
             )
+            if composite_state is not None and self.initial_state:
+                self.state.set_value(self.initial_state)
+                self.state.apply_defaults()
+                self.state.build_topology_views()
 
         else:
             self.state = store
